@@ -108,9 +108,12 @@ class _Scan(ast.NodeVisitor):
     def visit_Assign(self, node):
         # aliasing: a shared array (or a basic-index view of it) bound to a local name
         v = node.value
-        if isinstance(v, ast.Name) and v.id in self.shared:
+        binds_name = any(
+            isinstance(e, ast.Name) for t in node.targets for e in ([t] if not isinstance(t, (ast.Tuple, ast.List)) else t.elts)
+        )
+        if binds_name and isinstance(v, ast.Name) and v.id in self.shared:
             self.bad(node, "alias of a shared array")
-        if isinstance(v, ast.Subscript) and isinstance(v.value, ast.Name) and v.value.id in self.shared:
+        if binds_name and isinstance(v, ast.Subscript) and isinstance(v.value, ast.Name) and v.value.id in self.shared:
             idx = _index_list(v, self.task, self.loops)
             if any(i in ("all", "other") for i in idx) or len(idx) < 1:
                 self.bad(node, "view of a shared array bound to a name")
